@@ -61,7 +61,8 @@ theorem i3_notifyEvent_pub (j : Job) (c c' : Ctl) (ev : Event) (h : Host) (ds : 
         have e2 := completeInputs_fetchIssued _ _ _ _ _ hc2
         have e3 := completeInputs_dsHost _ _ _ _ _ hc2
         have e4 := completeInputs_fetchQ _ _ _ _ _ hc2
-        simp only [considerComputable_outputs, considerFetch_outputs, markAvailable_outputs,
+        simp only [markPublished_outputs, markPublished_fetchIssued, markPublished_dsHost, markPublished_fetchQ,
+          considerComputable_outputs, considerFetch_outputs, markAvailable_outputs,
           considerComputable_fetchIssued, considerFetch_fetchIssued, markAvailable_fetchIssued,
           considerComputable_dsHost, considerFetch_dsHost, considerComputable_fetchQ] at e1 e2 e3 e4
         split at hr
@@ -70,7 +71,7 @@ theorem i3_notifyEvent_pub (j : Job) (c c' : Ctl) (ev : Event) (h : Host) (ds : 
         · cases hr
     · simp only [Except.ok.injEq] at hr; subst hr
       refine ⟨by simp, by simp, ?_, by simp⟩
-      simp only [considerComputable_dsHost, considerFetch_dsHost]
+      simp only [markPublished_dsHost, considerComputable_dsHost, considerFetch_dsHost]
       rfl
 
 theorem i3_notify_payload_core {f : Sem} {j : Job} {cl : Cluster} {s s' : Sys} (h3 : Inv3 f j cl s)
